@@ -32,6 +32,7 @@ builds = ck.cc_par([
     ("c09_c2m", C2M_SRCS, ["-O1", "-DNDEBUG", "-w"]),
 ])
 HARNESS, C2M = builds["c09_pp"], builds["c09_c2m"]
+DRV = os.path.join(VERIF, "lean", ".lake", "build", "bin", "mirdrv_c09")
 for nm, exe in builds.items():
     if exe is None:
         ck.broken_ties.append({"kind": "harness-compile", "name": nm, "log": getattr(ck, "last_cc_log", "")[-1500:]})
@@ -92,24 +93,24 @@ def patched_harness(patches):
     if key in _variant_cache:
         return _variant_cache[key]
     pfiles = [os.path.join(VERIF, "fixes", p) for p in key]
-    h = file_hash([os.path.join(REPO, "c2mir/c2mir.c")] + pfiles)
-    d = os.path.join(CACHE, "c09-fix", h)
+    tag = "all" if len(key) > 1 else key[0][len("C09-"):-len(".patch")]
+    d = os.path.join(CACHE, "c09-fix", tag)
     src = os.path.join(d, "c2mir.c")
     exe = None
     try:
-        if not os.path.exists(src + ".ok"):
-            shutil.rmtree(d, ignore_errors=True)
-            os.makedirs(d)
-            text = open(os.path.join(REPO, "c2mir/c2mir.c")).read()
-            for pf in pfiles:
-                try:
-                    text = apply_patch_text(text, open(pf).read())
-                except RuntimeError as e:
-                    raise RuntimeError(f"patch {os.path.basename(pf)} does not apply: {e}")
-            open(src, "w").write(text)
-            open(src + ".ok", "w").write("ok")
-        exe = ck.cc("c09_ppfix_" + h[:10], ["harness/c09_pp.c", os.path.join(REPO, "mir.c")],
-                    HARNESS_FLAGS + [f'-DC09_C2MIR_C="{src}"', "-I" + os.path.join(REPO, "c2mir")], deps=pfiles)
+        text = open(os.path.join(REPO, "c2mir/c2mir.c")).read()
+        for pf in pfiles:
+            try:
+                text = apply_patch_text(text, open(pf).read())
+            except RuntimeError as e:
+                raise RuntimeError(f"patch {os.path.basename(pf)} does not apply: {e}")
+        os.makedirs(d, exist_ok=True)
+        if not os.path.exists(src) or open(src).read() != text:
+            with open(src, "w") as f:
+                f.write(text)
+        exe = ck.cc("c09_ppfix_" + tag, ["harness/c09_pp.c", os.path.join(REPO, "mir.c")],
+                    HARNESS_FLAGS + [f'-DC09_C2MIR_C="{src}"', "-I" + os.path.join(REPO, "c2mir")],
+                    deps=pfiles + [src])
     except Exception as e:  # noqa
         ck.log("patched harness unavailable:", e)
     _variant_cache[key] = exe
@@ -124,9 +125,9 @@ def prebuild_variants():
 
 # ------------------------------------------------------------------ runners
 def run_gcc(src):
-    p = subprocess.run(["gcc", "-E", "-P", "-std=c11", "-x", "c", "-"], input=src, capture_output=True, text=True)
-    err = p.returncode != 0 or " error: " in p.stderr
-    return {"err": err, "t": None if err else G.pp_tokenize(p.stdout), "stderr": p.stderr[-300:]}
+    rc, out, serr = run_limited(["gcc", "-E", "-P", "-std=c11", "-x", "c", "-"], src, timeout=60)
+    err = rc != 0 or " error: " in serr
+    return {"err": err, "t": None if err else G.pp_tokenize(out), "stderr": serr[-300:]}
 
 
 def run_gcc_many(srcs):
@@ -154,11 +155,51 @@ def parse_blocks(out):
 
 _tmpn = [0]
 HARNESS_TIMEOUT = 20
+TMPD = os.path.join(CACHE, "c09-tmp")
+os.makedirs(TMPD, exist_ok=True)
 
 
 def _limits():
     import resource
     resource.setrlimit(resource.RLIMIT_AS, (6 << 30, 6 << 30))
+    resource.setrlimit(resource.RLIMIT_FSIZE, (256 << 20, 256 << 20))
+    resource.setrlimit(resource.RLIMIT_CPU, (600, 600))
+
+
+# address space 6 GB, files 256 MB, cpu 600 s -- set by the shell that execs the child (no preexec_fn: python
+# forks much faster without it when many threads start children)
+LIMIT_WRAP = ["/bin/sh", "-c", "ulimit -v 6291456; ulimit -f 524288; ulimit -t 600; exec \"$@\"", "sh"]
+
+
+def run_limited(cmd, inp=None, timeout=120):
+    """run a child with address-space / file-size / cpu limits; stdout and stderr go to size-limited files
+    (never to unbounded pipes).  -> (rc, stdout, stderr); rc = -999 on timeout"""
+    _tmpn[0] += 1
+    base = os.path.join(TMPD, f"io{os.getpid()}_{_tmpn[0]}")
+    fin = None
+    try:
+        if inp is not None:
+            with open(base + ".in", "w") as f:
+                f.write(inp)
+            fin = open(base + ".in")
+        with open(base + ".out", "wb") as fo, open(base + ".err", "wb") as fe:
+            try:
+                p = subprocess.run(LIMIT_WRAP + list(cmd), stdin=fin if fin else subprocess.DEVNULL, stdout=fo,
+                                   stderr=fe, timeout=timeout)
+                rc = p.returncode
+            except subprocess.TimeoutExpired:
+                rc = -999
+        out = open(base + ".out", "rb").read(300 << 20).decode("utf-8", "replace")
+        err = open(base + ".err", "rb").read(1 << 20).decode("utf-8", "replace")
+        return rc, out, err
+    finally:
+        if fin:
+            fin.close()
+        for ext in (".in", ".out", ".err"):
+            try:
+                os.remove(base + ext)
+            except OSError:
+                pass
 
 
 def run_harness(exe, srcs):
@@ -174,13 +215,8 @@ def run_harness(exe, srcs):
                 f.write(f"@@CASE {i}\n{srcs[i]}")
                 if not srcs[i].endswith("\n"):
                     f.write("\n")
-        try:
-            p = subprocess.run([exe, path], capture_output=True, text=True, timeout=HARNESS_TIMEOUT, errors="replace",
-                               preexec_fn=_limits)
-            return parse_blocks(p.stdout), p.returncode
-        except subprocess.TimeoutExpired as e:
-            so = e.stdout.decode("utf-8", "replace") if isinstance(e.stdout, bytes) else (e.stdout or "")
-            return parse_blocks(so), -999
+        rc, so, _ = run_limited([exe, path], None, timeout=HARNESS_TIMEOUT)
+        return parse_blocks(so), rc
 
     out = [None] * len(srcs)
     todo = list(range(len(srcs)))
@@ -216,7 +252,7 @@ def run_harness(exe, srcs):
 
 def run_spec(cases, mode=("pp", "c11")):
     inp = "".join(G.proto_case(i, c) for i, c in enumerate(cases))
-    rc, out, err = ck.drv("mirdrv_c09", list(mode), inp)
+    rc, out, err = run_limited([DRV] + list(mode), inp, timeout=600)
     res = parse_blocks(out)
     if "BADLINE" in out:
         ck.broken_ties.append({"kind": "driver-protocol", "name": "mirdrv_c09 pp", "first_diff": out[:300]})
@@ -233,12 +269,12 @@ def run_c2m_binary(src):
     with open(path, "w") as f:
         f.write(src)
     try:
-        p = subprocess.run([C2M, "-E", path], capture_output=True, text=True, timeout=60, errors="replace")
+        rc, pout, perr = run_limited([C2M, "-E", path], None, timeout=60)
     finally:
         os.remove(path)
     # keep the part that belongs to the case file, drop `#line` lines and white space
     keep, on = [], False
-    for l in p.stdout.split("\n"):
+    for l in pout.split("\n"):
         ls = l.strip()
         if ls.startswith("#line "):
             m = re.search(r'"([^"]*)"', ls)
@@ -247,7 +283,7 @@ def run_c2m_binary(src):
             continue
         if on:
             keep.append(l)
-    return {"rc": p.returncode, "squeezed": re.sub(r"\s+", "", "".join(keep)), "stderr": p.stderr[-300:]}
+    return {"rc": rc, "squeezed": re.sub(r"\s+", "", "".join(keep)), "stderr": perr[-300:]}
 
 
 # ------------------------------------------------------------------ judging token cases
@@ -491,7 +527,7 @@ def expr_source(toks_list, base=0):
 
 def drv_expr(toks_list, mode=("expr",)):
     inp = "".join(" ".join("w" + G.hx(t) for t in toks) + "\n" for toks in toks_list)
-    rc, out, err = ck.drv("mirdrv_c09", list(mode), inp)
+    rc, out, err = run_limited([DRV] + list(mode), inp, timeout=600)
     return out.strip("\n").split("\n") if toks_list else []
 
 
@@ -804,15 +840,15 @@ def strings_family():
     path = os.path.join(d, f"strings{os.getpid()}.txt")
     with open(path, "w") as f:
         f.write("".join(G.hx(x) + "\n" for x in strs))
-    p = subprocess.run([HARNESS, "--strings", path], capture_output=True, text=True)
+    _, hout, herr = run_limited([HARNESS, "--strings", path], None, timeout=60)
     os.remove(path)
-    rc, out, err = ck.drv("mirdrv_c09", ["strings"], "".join(G.hx(x) + "\n" for x in strs))
-    hl = p.stdout.strip("\n").split("\n")
+    rc, out, err = run_limited([DRV, "strings"], "".join(G.hx(x) + "\n" for x in strs), timeout=120)
+    hl = hout.strip("\n").split("\n")
     ml = out.strip("\n").split("\n")
     st = {"strings": len(strs), "model_ne_code": 0, "roundtrip_fails": 0, "with_escape_pair": 0}
     if len(hl) != 3 * len(strs) or len(ml) != 4 * len(strs):
         ck.broken_ties.append({"kind": "correspondence", "name": "stringify/destringify harness protocol",
-                               "first_diff": (p.stdout[:200], out[:200], p.stderr[-200:])})
+                               "first_diff": (hout[:200], out[:200], herr[-200:])})
         return st
     reported = False
     for i, x in enumerate(strs):
